@@ -80,6 +80,12 @@ def answer (l : String) : String :=
       | some a, some b => ord (Maven.cmp a b)
       | _, _ => "err"
     | _, _ => "bad-op"
+  | ["mvncompat", s, t] =>
+    match str s, str t with
+    | some s, some t => match Maven.parse s, Maven.parse t with
+      | some a, some b => toString (Maven.compat a b)
+      | _, _ => "err"
+    | _, _ => "bad-op"
   | ["rhc", s] =>
     match str s with
     | none => "bad-op"
